@@ -55,6 +55,9 @@ class Ids:
         return self.m[k]
 
 
+RECORDER_BROKEN = False
+
+
 class Recorder:
     """sys.settrace-based recorder of accessor events; also the yield point of the baton scheduler."""
 
@@ -65,6 +68,7 @@ class Recorder:
         self.tids = {}
         self.line_files = line_files    # tuple of path prefixes for line-granularity preemption
         self.lock = threading.Lock()
+        self.broken = False
 
     def tid(self):
         return self.tids.get(threading.get_ident(), -1)
@@ -82,7 +86,21 @@ class Recorder:
             return None
         if self.baton is not None:
             self.baton.yield_point(t)
+        if self.broken:
+            return None
+        try:
+            return self._record(frame, kind, t)
+        except Exception:   # noqa -- the observer must never disturb the observed program
+            self.broken = True
+            return None
+
+    def _record(self, frame, kind, t):
         loc = frame.f_locals
+        if kind != 'bind' and ('s' not in loc or 'k' not in loc):
+            # the generated accessors are written differently: accessor events cannot be projected (DRIFT), the
+            # accessor calls remain pre-emption points of the scheduler
+            self.broken = True
+            return None
         if kind == 'bind':
             s = loc.get('self')
             e = {'t': t, 'ev': 'bind', 'cls': self.acc.cls_of(s), 'inst': self.ids(s), 'obj': s}
@@ -94,7 +112,10 @@ class Recorder:
             cur = loc.get('current', None)          # per-thread current store (repaired ts_props)
             store = getattr(cur, 'store', None) if cur is not None else None
         if store is None:
-            store = getattr(s, '_ts_props', None)
+            try:
+                store = object.__getattribute__(s, '_ts_props')
+            except AttributeError:
+                store = None
         e = {'t': t, 'ev': kind, 'cls': self.acc.cls_of(s), 'inst': self.ids(s), 'obj': s, 'hit_obj': store,
              'prop': loc.get('k')}
         if kind == 'set':
@@ -121,6 +142,13 @@ class Recorder:
 
     def bound0(self):
         """Current value of the class-level closure variable of each class (as a store id), 0 if there is none."""
+        try:
+            return self._bound0()
+        except Exception:   # noqa
+            self.broken = True
+            return {c: 0 for c in self.acc.classes}
+
+    def _bound0(self):
         out = {}
         for cname, cls in self.acc.classes.items():
             out[cname] = 0
@@ -138,6 +166,10 @@ class Recorder:
         """Resolve store identities: the store an instance owns is the threading.local kept in its _ts_props slot."""
         own = {}
         out = []
+        if self.broken:
+            global RECORDER_BROKEN
+            RECORDER_BROKEN = True
+            return []
         for e in self.events:
             o = e.pop('obj', None)
             if o is not None:
